@@ -92,7 +92,7 @@ func Props(c *Ctx) map[string]*Prop {
 	add(&Prop{ID: "C11",
 		Explanation: "Decides the table side of C arithmetic: operator spellings the tokeniser recognises = the ops table (TB9a); each operator case computes `l S r` on signed 64-bit operands in that order, unary and truth tests as C defines them, constants parsed with base 0 (TB9b); the grammar's levels are C's precedence ladder with C's associativity (GR5) and the compiled tables are the grammar's (GR1, GR2); run-time faults are recovered into ArithExprError (PF5); whether side effects are executed inside reductions that C would skip (AR); and that the evaluation's outcome after a fault does not depend on the schedule: the parser stops consuming tokens (CC13) and the reported error has a deterministic winner (CC11). Numeric results are not computed.",
 		Assumptions: []string{"analysed build configuration linux/amd64 (int is 64-bit); the thorough tier re-checks the width under linux/386", "C's operator table (ISO C 6.5) is the external oracle"},
-		Rules:       []Rule{ruleNUM1(), ruleLP1(), ruleGR1("interp"), ruleGR2("interp"), ruleGR5(), ruleTB9a("interp", "interp.(*lexer).lexOp", 15), ruleTB9b(), rulePF5(), ruleEF7(), ruleAR(), ruleAR3(), ruleAR6(), ruleRV1(), ruleCC13("interp"), ruleCC11("interp"), ruleCC9("interp"), ruleAR5(), ruleNG1("interp"), rulePU4()}})
+		Rules:       []Rule{ruleNUM1(), ruleLP1(), ruleGR1("interp"), ruleGR2("interp"), ruleGR5(), ruleTB9a("interp", "interp.(*lexer).lexOp", 15), ruleTB9b(), rulePF5(), ruleEF7(), ruleAR(), ruleAR3(), ruleAR6(), ruleRV1(), ruleCC13("interp"), ruleCC11("interp"), ruleCC9("interp"), ruleCC17("interp"), ruleAR5(), ruleNG1("interp"), rulePU4()}})
 	add(&Prop{ID: "C06",
 		Explanation: "Decides race freedom and goroutine lifetime structurally for every path: goroutine roots always close their channels (CC1); every access to goroutine-touched lexer fields after a spawn is preceded by a join on all paths (CC2); every field shared between the lexer-role and parser-role functions with a write is accessed only under the mutex, atomically or as a channel operation (CC3); sends can always be abandoned, the cancel channel is closed at most once, atomics are used consistently (CC4/CC5); the here-document hand-off cannot deadlock (CC6, GR4, with the token channel a rendezvous, CC9); cancellation is observed only at the token hand-over, never polled (CC10); the error slot has a deterministic winner (CC11), a lexer that failed by itself offers no further token (CC12) and a parser that fails inside a reduction stops consuming (CC13); the bail-out does not kill the process (PF4). Which of two concurrently raised errors is returned is a schedule-dependent value and is not decided.",
 		Assumptions: []string{"the Go memory model: lock, atomic, channel and go/join edges order accesses", "roles are computed on an over-approximating call graph (reference based + CHA for interface calls)"},
